@@ -1054,9 +1054,13 @@ impl OutstationSession {
                 Some(LastValidRequest::new(seq, hash, response, None))
             }
             FragmentType::RepeatNonRead(hash, last_response) => {
-                // If we have a pending select, update the sequence number
-                if let Some(select) = &mut self.state.select {
-                    select.update_frame_id(info.id);
+                // A retransmitted SELECT must not invalidate the pending select. Any
+                // other repeated request still counts as a fragment between the SELECT
+                // and its OPERATE.
+                if request.header.function == FunctionCode::Select {
+                    if let Some(select) = &mut self.state.select {
+                        select.update_frame_id(info.id);
+                    }
                 }
 
                 // per the spec, we just echo the last response
@@ -1684,7 +1688,8 @@ impl OutstationSession {
             (result, cursor.written().len())
         };
 
-        // Record the select state
+        // Record the select state, a new SELECT always replaces a previous one
+        self.state.select = None;
         if let Ok(CommandStatus::Success) = result {
             self.state.select = Some(SelectState::new(
                 seq,
